@@ -546,12 +546,13 @@ def _local2synodic_collinear(point: CollinearPoint, local_coords: np.ndarray, to
     vy = c[4] - c[0]
     vz = c[5]
 
-    syn[3] = gamma * vx  # Vx
-    syn[4] = gamma * vy  # Vy
+    syn[3] = sgn * gamma * vx  # Vx
+    syn[4] = sgn * gamma * vy  # Vy
     syn[5] = gamma * vz  # Vz
 
-    # Flip X and Vx according to NASA/Szebehely convention (see standard relations)
-    syn[[0, 3]] *= -1.0
+    # Rotate by pi about the z axis into the NASA/Szebehely frame (primaries at
+    # (-mu, 0, 0) and (1-mu, 0, 0)): X, Y, Vx and Vy all change sign.
+    syn[[0, 1, 3, 4]] *= -1.0
 
     return syn
 
@@ -605,15 +606,15 @@ def _synodic2local_collinear(point: CollinearPoint, synodic_coords: np.ndarray, 
     # X coordinate
     local[0] = (-s[0] - mu - a) / (sgn * gamma)
     # Y coordinate
-    local[1] = s[1] / (sgn * gamma)
+    local[1] = -s[1] / (sgn * gamma)
     # Z coordinate
     local[2] = s[2] / gamma
 
     # Invert velocity mapping
-    # px1 from Vx (note the sign flip on Vx)
-    local[3] = -s[3] / gamma - local[1]
+    # px1 from Vx (Vx and Vy both carry the rotation by pi and the orientation sign)
+    local[3] = -s[3] / (sgn * gamma) - local[1]
     # px2 from Vy
-    local[4] = s[4] / gamma + local[0]
+    local[4] = -s[4] / (sgn * gamma) + local[0]
     # px3 from Vz
     local[5] = s[5] / gamma
 
@@ -664,22 +665,25 @@ def _local2synodic_triangular(point: TriangularPoint, local_coords: np.ndarray, 
 
     syn = np.empty(6, dtype=np.float64)
 
-    # Positions
-    syn[0] = c[0] - mu + 1 / 2 # X
-    syn[1] = c[1] + sgn * np.sqrt(3) / 2 # Y
+    # Positions in the frame of the expansion (primaries at (mu, 0, 0) and (mu-1, 0, 0)):
+    # the local origin is the triangular point (mu - 1/2, -sgn*sqrt(3)/2, 0)
+    syn[0] = c[0] + mu - 1 / 2 # X
+    syn[1] = c[1] - sgn * np.sqrt(3) / 2 # Y
     syn[2] = c[2]  # Z
 
-    # Local momenta to synodic velocities
-    vx = c[3] - sgn * np.sqrt(3) / 2
-    vy = c[4] - mu  + 1 / 2
+    # Local momenta to velocities: the constant shifts of the momenta cancel the
+    # frame-rotation terms of the point itself, leaving v = p + (y, -x, 0)
+    vx = c[3] + c[1]
+    vy = c[4] - c[0]
     vz = c[5]
 
     syn[3] = vx  # Vx
     syn[4] = vy  # Vy
     syn[5] = vz  # Vz
 
-    # Flip X and Vx according to NASA/Szebehely convention (see standard relations)
-    syn[[0, 3]] *= -1.0
+    # Rotate by pi about the z axis into the NASA/Szebehely frame (primaries at
+    # (-mu, 0, 0) and (1-mu, 0, 0)): X, Y, Vx and Vy all change sign.
+    syn[[0, 1, 3, 4]] *= -1.0
 
     return syn
 
@@ -729,14 +733,14 @@ def _synodic2local_triangular(point: TriangularPoint, synodic_coords: np.ndarray
     # Allocate output array
     local = np.empty(6, dtype=np.float64)
 
-    # Invert position mapping (forward transform shifted X by mu - 0.5 and flipped its sign)
-    local[0] = mu - 0.5 - s[0]  # x1
-    local[1] = s[1] - sgn * np.sqrt(3) / 2  # x2
+    # Invert position mapping (rotation by pi, then shift to the triangular point)
+    local[0] = 0.5 - mu - s[0]  # x1
+    local[1] = sgn * np.sqrt(3) / 2 - s[1]  # x2
     local[2] = s[2]  # x3 (Z)
 
-    # Invert velocity mapping (forward transform flipped Vx's sign and shifted Vy by mu - 0.5)
-    local[3] = sgn * np.sqrt(3) / 2 - s[3]  # px1 from Vx (with sign flip)
-    local[4] = s[4] + mu - 0.5  # px2 from Vy
+    # Invert velocity mapping: p = v - (y, -x, 0) in the rotated frame
+    local[3] = -s[3] - local[1]  # px1 from Vx
+    local[4] = -s[4] + local[0]  # px2 from Vy
     local[5] = s[5]  # px3 from Vz
 
     return local
